@@ -33,10 +33,12 @@ type Conn struct {
 	sync.Map
 	ts time.Time
 	tracer.Context
-	tlsState *tls.ConnectionState
-	username string
-	password string
-	uuid     uuid.UUID
+	tlsState    *tls.ConnectionState
+	username    string
+	password    string
+	hasUsername bool
+	hasPassword bool
+	uuid        uuid.UUID
 }
 
 func newConnWith(conn net.Conn, tlsState *tls.ConnectionState) *Conn {
@@ -52,6 +54,7 @@ func newConnWith(conn net.Conn, tlsState *tls.ConnectionState) *Conn {
 		username:  "",
 		password:  "",
 		uuid:      uuid.New(),
+		// hasUsername and hasPassword stay false until a credential is presented.
 	}
 }
 
@@ -90,21 +93,23 @@ func (conn *Conn) IsAuthrized() bool {
 // SetUserName sets the user name to the connection.
 func (conn *Conn) SetUserName(username string) {
 	conn.username = username
+	conn.hasUsername = true
 }
 
 // UserName returns the user name and true if the connection has the user name.
 func (conn *Conn) UserName() (string, bool) {
-	return conn.username, 0 < len(conn.username)
+	return conn.username, conn.hasUsername
 }
 
 // SetPassword sets the password to the connection.
 func (conn *Conn) SetPassword(password string) {
 	conn.password = password
+	conn.hasPassword = true
 }
 
 // Password returns the password and true if the connection has the password.
 func (conn *Conn) Password() (string, bool) {
-	return conn.password, 0 < len(conn.password)
+	return conn.password, conn.hasPassword
 }
 
 // Timestamp returns the creation time of the connection.
